@@ -59,7 +59,14 @@ class ParsedHeaders(Mapping[bytes, Sequence[BaseHeader]]):
             #   https://github.com/python/typeshed/pull/4365
             # assign to hdr_name, hdr_value = ... instead.
             hdr_tuple = SMTP.header_source_parse(lines)
-            yield cls._registry(hdr_tuple[0], hdr_tuple[1])
+            try:
+                yield cls._registry(hdr_tuple[0], hdr_tuple[1])
+            except (ValueError, LookupError):
+                # Headers are parsed on first use, which may be while a
+                # response is being written: a value the header registry
+                # chokes on (a bare CR, an encoded word that decodes to a
+                # lone surrogate) has no structured form, as if absent.
+                pass
 
     def __repr__(self) -> str:
         return repr(dict(self))
